@@ -4,6 +4,7 @@
 #![allow(unused_imports)]
 pub mod common;
 pub mod stubs;
+pub mod reference;
 
 #[cfg(kani)]
 mod h;
